@@ -33,6 +33,10 @@ type c01Scenario struct {
 	New          []c01Target   `json:"new"`
 	Placement    string        `json:"placement"`
 	DeployTO     time.Duration `json:"deploy_timeout"`
+	// HCPath: the configured health-check path when it is not the default - spelled so that a
+	// careless URL join would send the probes somewhere else (to "probe-sink:80", which answers 200 to
+	// everything). It is the *target* that has to answer a probe with 2xx.
+	HCPath string `json:"health_check_path,omitempty"`
 }
 
 const (
@@ -146,6 +150,9 @@ func c01Gen(rng *rand.Rand, idx int) c01Scenario {
 			sc.Placement = "after"
 			sc.DeployTO = 500 * time.Millisecond
 		}
+	}
+	if idx%4 == 1 {
+		sc.HCPath = []string{"//probe-sink:80/up", "http://probe-sink:80/up", "/up?full=1", "//probe-sink:80", "up", "/../up"}[(idx/4)%6]
 	}
 	return sc
 }
@@ -301,6 +308,10 @@ func c01Run(t *testing.T, run *Run, sc c01Scenario) {
 	to := DefTO
 	to.HealthCheckConfig.Interval = c01Interval
 	to.HealthCheckConfig.Timeout = c01ProbeTO
+	if sc.HCPath != "" {
+		to.HealthCheckConfig.Path = sc.HCPath
+		w.AddTarget("probe-sink:80", nil)
+	}
 	const svc = "svc"
 	for _, o := range sc.Old {
 		w.AddTarget(o, nil)
